@@ -170,3 +170,58 @@ Example C05_api_example :
              (FromOs, CStop); (FromOs, CFinalize); (FromOs, CStop); (FromOs, CWait)] api0
   = [RErr; ROk; RErr; RErr; ROk; ROk; RErr; ROk; RBlock; ROk; RRet 7%Z; RErr].
 Proof. vm_compute. reflexivity. Qed.
+
+(* ================================================================== history-level laws of the API automaton
+   (Proofs/LifecycleApiLaws.v) — every history of calls from OS threads and tasks *)
+From Pika Require Import Proofs.LifecycleApiLaws.
+
+(* at most one incarnation at a time: #accepted start() = #returned stop() (+ 1 exactly while a runtime
+   exists); and whenever no runtime exists the state is the initial one — nothing survives a stop *)
+Theorem C05_single_incarnation : forall h,
+  let n := starts_ok h api0 in let m := stops_ret h api0 in
+  (n = m \/ n = S m) /\ (n = m <-> ph (api_run h api0) = NoRt) /\
+  (ph (api_run h api0) = NoRt -> api_run h api0 = api0).
+Proof. exact single_incarnation. Qed.
+Print Assumptions C05_single_incarnation.
+
+(* finalize is sticky: while the runtime exists and stop has not returned, no call clears it *)
+Theorem C05_finalize_sticky : forall s c k, ph s <> NoRt -> fin s = true ->
+  is_ret (snd (api_step s c k)) = false ->
+  fin (fst (api_step s c k)) = true /\ ph (fst (api_step s c k)) <> NoRt.
+Proof. exact finalize_sticky. Qed.
+Print Assumptions C05_finalize_sticky.
+
+(* a second finalize on a running runtime is accepted and changes nothing *)
+Theorem C05_finalize_twice : forall s c c', ph s = Running ->
+  let s1 := fst (api_step s c CFinalize) in
+  api_step s1 c' CFinalize = (s1, ROk).
+Proof. exact finalize_twice. Qed.
+Print Assumptions C05_finalize_twice.
+
+(* suspend / resume from an OS thread are idempotent ... *)
+Theorem C05_suspend_idempotent : forall s, ph s <> NoRt ->
+  let s1 := fst (api_step s FromOs CSuspend) in
+  ph s1 = Sleeping /\ api_step s1 FromOs CSuspend = (s1, ROk).
+Proof. exact suspend_idempotent. Qed.
+Print Assumptions C05_suspend_idempotent.
+
+Theorem C05_resume_idempotent : forall s, ph s <> NoRt ->
+  let s1 := fst (api_step s FromOs CResume) in
+  ph s1 = Running /\ api_step s1 FromOs CResume = (s1, ROk).
+Proof. exact resume_idempotent. Qed.
+Print Assumptions C05_resume_idempotent.
+
+(* ... and resume undoes suspend, except that suspend has drained the pending work *)
+Theorem C05_suspend_resume_roundtrip : forall s, ph s = Running ->
+  let s2 := fst (api_step (fst (api_step s FromOs CSuspend)) FromOs CResume) in
+  ph s2 = Running /\ fin s2 = fin s /\ eres s2 = eres s /\ conf s2 = conf s /\ pend s2 = 0%N /\
+  snd (api_step s FromOs CSuspend) = ROk /\
+  snd (api_step (fst (api_step s FromOs CSuspend)) FromOs CResume) = ROk.
+Proof. exact suspend_resume_roundtrip. Qed.
+Print Assumptions C05_suspend_resume_roundtrip.
+
+Example C05_incarnations_example :
+  let h := [(FromOs, CStart 4 7%Z); (FromOs, CStart 2 1%Z); (FromOs, CFinalize); (FromOs, CStop);
+            (FromOs, CStart 1 9%Z)] in
+  starts_ok h api0 = 2 /\ stops_ret h api0 = 1 /\ ph (api_run h api0) = Running.
+Proof. vm_compute. repeat split. Qed.
